@@ -19,15 +19,15 @@ GEN = ("random well-formed histories from the seeded generator (tools/gen_engine
        "incl. equal values, expert nodes with scripted drivers; 8-60 actions each. ")
 
 PROPS = {
-    "C01": spec(["IncrVerif.Props.C01"], [("static", 0.35), ("bind", 0.45), ("general", 0.2)], ["api", "read"],
+    "C01": spec(["IncrVerif.Props.C01", "IncrVerif.Props.C01Global"], [("static", 0.35), ("bind", 0.45), ("general", 0.2)], ["api", "read"],
                 GEN + "C01 histories use only equality-respecting cutoffs and pure map_with_old machines (the property's proviso); "
                 "non-trivial = distinct history with at least two successful observer reads and one node function invocation",
                 c01_safe=True),
-    "C02": spec(["IncrVerif.Props.C02"], [("bind", 0.5), ("general", 0.3), ("static", 0.2)], ["api", "ev", "read"],
+    "C02": spec(["IncrVerif.Props.C02", "IncrVerif.Props.C01Global"], [("bind", 0.5), ("general", 0.3), ("static", 0.2)], ["api", "ev", "read"],
                 GEN + "both build profiles (in debug builds a glitch usually trips a debug assertion first; release builds show the "
                 "stale arguments); non-trivial = distinct history in which node functions ran",
                 builds=("debug", "release"), nq=200),
-    "C06": spec(["IncrVerif.Props.C06"], [("static", 0.3), ("general", 0.4), ("bind", 0.3)], ["api", "ev", "read"],
+    "C06": spec(["IncrVerif.Props.C06", "IncrVerif.Props.C01Global"], [("static", 0.3), ("general", 0.4), ("bind", 0.3)], ["api", "ev", "read"],
                 GEN + "all cutoff kinds on all node kinds incl. vars, equal-value writes, unobserve/re-observe; "
                 "non-trivial = distinct history in which node functions ran"),
     "C14": spec(["IncrVerif.Props.C14"], [("expert", 1.0)], ["api", "ev", "read", "snap"],
@@ -51,7 +51,7 @@ PROPS = {
                 GEN + "profile varw: writes from node functions and handlers, several readers; non-trivial = distinct history in which node functions ran"),
     "C10": spec(["IncrVerif.Props.C10"], [("life", 0.6), ("subs", 0.4)], ["api", "read", "ev"],
                 GEN + "profile life: observer-API heavy; non-trivial = distinct history with observer reads"),
-    "C11": spec(["IncrVerif.Props.C11Heap"], [("general", 0.3), ("bind", 0.3), ("expert", 0.2), ("subs", 0.2)],
+    "C11": spec(["IncrVerif.Props.C11Heap", "IncrVerif.Props.C05"], [("general", 0.3), ("bind", 0.3), ("expert", 0.2), ("subs", 0.2)],
                 ["snap", "heap", "stats", "audit"],
                 GEN + "the model's full snapshot (heights, timestamps, validity, necessity, ordered parent lists with child indices, children, "
                 "handler counts, heap buckets in order, counters) is compared with verif_snapshot() after EVERY action, and verif_audit() "
